@@ -54,6 +54,7 @@ type Conv struct {
 func (c *Conv) subst(s string) string {
 	s = strings.ReplaceAll(s, "PFX", c.Pfx)
 	s = strings.ReplaceAll(s, "pfx", strings.ToLower(c.Pfx))
+	s = strings.ReplaceAll(s, "CNAME", c.Name)
 	return strings.ReplaceAll(s, "GRP", c.Group)
 }
 
